@@ -12,7 +12,7 @@
    All hashes are small integers assigned by the harness (0 is never an id);
    the unspent-set checksum uses the real 256-bit SnapshotHash values as Z. *)
 From Sky Require Import Base.Uint Gen.Mathutil Gen.CoinHours.
-From Coq Require Import List.
+From Coq Require Import List Permutation.
 Import ListNotations.
 Open Scope Z_scope.
 
@@ -32,6 +32,7 @@ Definition mkux (b : block) (t : txn) (o : txout) : uxout :=
   mk_ux (o_id o) (b_time b) (b_seq b) (if b_seq b =? 0 then 0 else t_id t)
         (o_addr o) (o_coins o) (o_hours o) (o_snap o).
 
+Definition is_empty {A} (l : list A) : bool := match l with [] => true | _ => false end.
 Definition memZ (x : Z) (l : list Z) : bool := existsb (Z.eqb x) l.
 (* keep the first occurrence of each element, in order *)
 Definition dedup (l : list Z) : list Z :=
@@ -159,21 +160,19 @@ Fixpoint add_all (cur rms adds : list Z) : option (list Z) :=
   | h :: r => if memZ h rms then None else if memZ h cur then None else add_all (cur ++ [h]) rms r
   end.
 Definition adjust (idx : amap (list Z)) (a : Z) (adds rms : list Z) : option (amap (list Z)) :=
-  match adds, rms with
-  | [], [] => Some idx
-  | _, _ =>
-      let existing := aget_list a idx in
-      if negb (nodup_b rms) then None
-      else if (List.length existing <? List.length rms)%nat then None
-      else
-        let kept := filter (fun h => negb (memZ h rms)) existing in
-        if negb (List.length existing - List.length kept =? List.length rms)%nat then None
-        else match add_all kept rms adds with
-             | None => None
-             | Some [] => Some (adel a idx)
-             | Some new => Some (aput a new idx)
-             end
-  end.
+  if is_empty adds && is_empty rms then Some idx
+  else
+    let existing := aget_list a idx in
+    if negb (nodup_b rms) then None
+    else if (List.length existing <? List.length rms)%nat then None
+    else
+      let kept := filter (fun h => negb (memZ h rms)) existing in
+      if negb (List.length existing - List.length kept =? List.length rms)%nat then None
+      else match add_all kept rms adds with
+           | None => None
+           | Some [] => Some (adel a idx)
+           | Some new => Some (aput a new idx)
+           end.
 
 Definition ids_at (a : Z) (l : list uxout) : list Z := map ux_id (filter (fun u => ux_addr u =? a) l).
 
@@ -265,7 +264,6 @@ Definition parse_block (h : hstate) (b : block) : option hstate :=
   | Some h' => Some (mk_hs (h_outs h') (h_txns h') (h_addr_ux h') (h_addr_txns h') (Some (b_seq b)))
   | None => None
   end.
-Definition is_empty {A} (l : list A) : bool := match l with [] => true | _ => false end.
 (* HistoryDB.NeedsReset *)
 Definition needs_reset (h : hstate) : bool :=
   match h_parsed h with
@@ -566,3 +564,53 @@ Definition spec_txns (c : chain) (p : pool) (kind : Z) (addrs : list Z) : list t
 (* a pool transaction whose input is no longer unspent (a block spent it) *)
 Definition pool_stale (c : chain) (p : pool) : bool :=
   negb (forallb (fun i => memZ i (map ux_id (utxo_of c))) (pool_ins p)).
+
+(* helpers shared by the cases templates *)
+Definition eqb_optl (a b : option (list Z)) : bool := eqb_option (eqb_list Z.eqb) a b.
+Definition eqb_quad (a b : Z * Z * Z * Z) : bool :=
+  let '(a1, a2, a3, a4) := a in let '(b1, b2, b3, b4) := b in (a1 =? b1) && (a2 =? b2) && (a3 =? b3) && (a4 =? b4).
+Definition chk (code : Z) (b : bool) : list Z := if b then [] else [code].
+
+(* ------------------------- agreement of the maintained state with the first-principles views *)
+
+Definition wf_block (p : chain) (b : block) : Prop := wf_block_b p b = true.
+Definition wf_chain (c : chain) : Prop := wf_chain_b c = true.
+
+Definition some_head (c : chain) : option Z := match c with [] => None | _ => Some (head_seq c) end.
+
+Definition uagree (s : ustate) (c : chain) : Prop :=
+  u_pool s = utxo_of c /\
+  (forall a, Permutation (aget_list a (u_idx s)) (addr_index_of c a)) /\
+  NoDup (map fst (u_idx s)) /\ (forall a, aget a (u_idx s) <> Some []) /\
+  u_xor s = xor_of c /\
+  u_height s = some_head c.
+
+Definition hagree (h : hstate) (c : chain) : Prop :=
+  (forall id, aget id (h_outs h) =
+              match hist_of c id with Some (u, (t, q)) => Some (mk_hout u t q) | None => None end) /\
+  (forall tid, aget tid (h_txns h) = txn_of c tid) /\
+  (forall a, aget_list a (h_addr_ux h) = addr_uxs_of c a) /\
+  (forall a, aget_list a (h_addr_txns h) = addr_txns_of c a) /\
+  h_parsed h = some_head c.
+
+Definition nagree (n : node) (c : chain) : Prop :=
+  n_chain n = c /\ uagree (n_us n) c /\ hagree (n_hs n) c.
+
+(* an operation sequence a node can go through: accepted blocks, and reopenings
+   (after genesis) where `order` enumerates the unspent pool and a damaged index
+   marker never equals the head (the code trusts a marker that equals the head) *)
+Fixpoint wf_ops_from (c : chain) (ops : list op) : Prop :=
+  match ops with
+  | [] => True
+  | OBlock b :: r => wf_block c b /\ wf_ops_from (c ++ [b]) r
+  | OReopen iw hw order :: r =>
+      c <> [] /\ Permutation order (map ux_id (utxo_of c)) /\
+      match iw with IdxKeep => True | IdxSet _ h => h <> Some (head_seq c) end /\
+      wf_ops_from c r
+  end.
+Fixpoint chain_of (ops : list op) : chain :=
+  match ops with
+  | [] => []
+  | OBlock b :: r => b :: chain_of r
+  | OReopen _ _ _ :: r => chain_of r
+  end.
